@@ -30,7 +30,28 @@ def analyse(h, repo=None, lang="c"):
     macros = {}
     body_lines = []
     includes = []
+    leaks = []          # persistent effects other than name bindings (the model assumes none)
+    pack_depth = 0
     for line in text.splitlines():
+        mp = re.match(r"\s*#\s*pragma\s+(.*)$", line)
+        if mp:
+            arg = " ".join(mp.group(1).split())
+            if arg == "once":
+                pass
+            elif re.match(r"pack\s*\(\s*push", arg):
+                pack_depth += 1
+            elif re.match(r"pack\s*\(\s*pop", arg):
+                pack_depth -= 1
+                if pack_depth < 0:
+                    leaks.append("#pragma pack(pop) without push")
+                    pack_depth = 0
+            else:
+                leaks.append("#pragma " + arg)
+            continue
+        mu = re.match(r"\s*#\s*undef\s+(\w+)", line)
+        if mu:
+            leaks.append("#undef " + mu.group(1))
+            continue
         m = re.match(r"\s*#\s*define\s+(\w+)(\([^)]*\))?\s*(.*)$", line)
         if m:
             macros[m.group(1)] = "macro" + (m.group(2) or "") + "=" + " ".join(m.group(3).split())
@@ -65,7 +86,64 @@ def analyse(h, repo=None, lang="c"):
             intro[n["name"]] = "typedef=" + n["type"].get("qualType", "")
         elif k == "FunctionDecl":
             intro[n["name"]] = "function=" + n["type"].get("qualType", "")
-    return {"header": h, "intro": sorted(intro.items()), "macros": sorted(macros), "uses": tokens, "includes": includes}
+    if pack_depth > 0:
+        leaks.append("#pragma pack(push) without pop")
+    # record types whose layout is checked: named structs/unions and typedef names of records
+    records = []
+    for f, n in tu.top:
+        if f != path:
+            continue
+        k = n.get("kind")
+        if k == "RecordDecl" and n.get("completeDefinition"):
+            fields = [c.get("name") for c in n.get("inner", []) if c.get("kind") == "FieldDecl" and c.get("name") and not c.get("isBitfield")]
+            if n.get("name"):
+                records.append(((n.get("tagUsed") or "struct") + " " + n["name"], fields))
+            else:
+                records.append(("#anon:" + n.get("id", ""), fields))
+        elif k == "TypedefDecl":
+            for c in n.get("inner", []):
+                rid = c.get("ownedTagDecl", {}).get("id")
+                if rid:
+                    for i, (nm, fl) in enumerate(records):
+                        if nm == "#anon:" + rid:
+                            records[i] = (n["name"], fl)
+    records = [r for r in records if not r[0].startswith("#anon:")]
+    return {"header": h, "intro": sorted(intro.items()), "macros": sorted(macros), "uses": tokens, "includes": includes,
+            "leaks": leaks, "records": records}
+
+
+def layout_probe(h, records, repo=None, workdir="/tmp"):
+    """sizeof / offsetof of every record type of header `h`, measured with `h` included alone"""
+    import subprocess
+    repo = repo or REPO
+    if not records:
+        return []
+    src = '#include <stddef.h>\n#include <stdio.h>\n#include "%s"\nint main(void) {\n' % h
+    for t, fields in records:
+        src += '  printf("S|%s|%%zu\\n", sizeof(%s));\n' % (t, t)
+        for f in fields:
+            src += '  printf("O|%s|%s|%%zu\\n", offsetof(%s, %s));\n' % (t, f, t, f)
+    src += "  return 0;\n}\n"
+    tag = re.sub(r"\W", "_", h)
+    c = os.path.join(workdir, "lay_%s.c" % tag)
+    exe = os.path.join(workdir, "lay_%s" % tag)
+    open(c, "w").write(src)
+    r = subprocess.run(["gcc", "-std=gnu99", "-w", "-I", os.path.join(repo, "include"), c, "-o", exe], capture_output=True, text=True)
+    out = []
+    if r.returncode == 0:
+        o = subprocess.run([exe], capture_output=True, text=True).stdout
+        for line in o.splitlines():
+            p = line.split("|")
+            if p[0] == "S":
+                out.append(("sizeof(%s)" % p[1], int(p[2])))
+            else:
+                out.append(("offsetof(%s, %s)" % (p[1], p[2]), int(p[3])))
+    for x in (c, exe):
+        if os.path.exists(x):
+            os.remove(x)
+    if r.returncode != 0:
+        raise RuntimeError("layout probe of %s does not compile: %s" % (h, r.stderr[-800:]))
+    return out
 
 
 def analyse_all(repo=None):
@@ -106,7 +184,7 @@ def intern_all(hs):
     out = []
     for h in hs:
         own = {a for a, _ in h["intro"]}
-        out.append({"id": hid[h["header"]], "name": h["header"],
+        out.append({"id": hid[h["header"]], "name": h["header"], "leaks": h.get("leaks", []),
                     "intro": sorted((names[a], meanings[b]) for a, b in h["intro"]),
                     "macros": sorted(names[a] for a in h["macros"]),
                     # tokens it uses but does not itself define
@@ -143,6 +221,7 @@ def emit(hs, path):
         L.append("  macros := [" + ", ".join(str(x) for x in r["macros"]) + "]")
         L.append("  uses := [" + ", ".join(str(x) for x in r["uses"]) + "]")
         L.append("  deps := [" + ", ".join(str(x) for x in r["deps"]) + "]")
+        L.append("  leaks := [" + ", ".join(lstr(x) for x in r["leaks"]) + "]")
         L.append("")
     L.append("def headers : List Hdr := [" + ", ".join(vs) + "]")
     L += ["", "end O1722.Gen", ""]
